@@ -33,8 +33,19 @@ static int big_cmp(const void *a, size_t la, const void *b, size_t lb) { int r =
 static int ext_cmp(const void *a, size_t la, const void *b, size_t lb) { int r = qtreetbl_byte_cmp(a, la, b, lb); return r < 0 ? INT_MIN : r > 0 ? INT_MAX : 0; }
 static int counting_cmp(const void *a, size_t la, const void *b, size_t lb) { ncmp_calls++; return base_cmp(a, la, b, lb); }
 
-static void *dupbuf(const unsigned char *p, size_t n) { unsigned char *q = malloc(n ? n : 1); memcpy(q, p, n); return q; }
-static void scribble_free(void *p, size_t n) { memset(p, 0x5A, n ? n : 1); free(p); }
+/* caller buffers start at every alignment in turn (offsets 0..7 from what malloc returns): the table is a function of the
+   bytes handed in, not of where the caller keeps them */
+static struct { void *p, *base; } dmap[256]; static unsigned dupno;
+static void *dupbuf(const unsigned char *p, size_t n) {
+    unsigned char *base = malloc(n + 16), *q = base + (dupno++ % 8); memcpy(q, p, n);
+    for (int i = 0; i < 256; i++) if (!dmap[i].p) { dmap[i].p = q; dmap[i].base = base; return q; }
+    abort();
+}
+static void scribble_free(void *p, size_t n) {
+    memset(p, 0x5A, n ? n : 1);
+    for (int i = 0; i < 256; i++) if (dmap[i].p == p) { free(dmap[i].base); dmap[i].p = NULL; return; }
+    free(p);
+}
 
 static void shape(qtreetbl_obj_t *o) {
     if (!o) { printf("."); return; }
